@@ -80,6 +80,18 @@ def _verify_one(args):
         return _pack(rep)
 
 
+def _rescue_one(smt2: str) -> str:
+    import z3
+    try:
+        s = z3.Solver()
+        s.set("timeout", 90000)
+        s.set("random_seed", 11)
+        s.from_string(smt2)
+        return str(s.check())
+    except Exception as e:      # noqa: BLE001
+        return f"error: {type(e).__name__}"
+
+
 def _pack(rep: FunctionReport):
     obs = []
     for ob in rep.obligations:
@@ -220,6 +232,18 @@ def run_property(build_mod: str, pid: str, argv=None) -> int:
     baseline = _load_baseline(pid)
     baseline_base = {n.split("#p")[0] for n in baseline}
     violations, known_hits, undecided = [], [], []
+    # last resort before an obligation that the committed baseline lists as discharged is reported: one more long z3 run on the
+    # stored query (a loaded machine must not turn a slow proof into an alarm); at most 4, in parallel
+    rescue = [ob for ob in all_obs if ob["kind"] != "cover" and ob["status"] == "unknown" and ob.get("smt2") and not match_finding(known, ob["name"])
+              and (ob["name"] in baseline or ob["name"].split("#p")[0] in baseline_base)][:4]
+    if rescue and os.environ.get("PYVC_FAST") != "1":
+        with mp.get_context("fork").Pool(len(rescue)) as pool:
+            verdicts = pool.map(_rescue_one, [ob["smt2"] for ob in rescue])
+        for ob, v in zip(rescue, verdicts):
+            if v == "unsat":
+                ob["status"], ob["backend"] = "discharged", "z3 (second run, 90 s)"
+            else:
+                ob["detail"] += f" | second run (90 s): {v}"
     for ob in all_obs:
         if ob["kind"] == "cover":
             if ob["status"] == "failed":
@@ -308,6 +332,8 @@ def run_property(build_mod: str, pid: str, argv=None) -> int:
                                                   "inlined_callees": r["inlined"], "time_s": round(r["time_s"], 3)}
                                      for r in reports if r["info"]],
         "by_backend": by_backend,
+        "slowest_obligations": [{"obligation": o["name"], "time_s": round(o["time_s"], 2), "backend": o["backend"]}
+                                for o in sorted(real_obs, key=lambda x: -x["time_s"])[:5]],
         "solver_time_s": round(sum(o["time_s"] for o in all_obs), 3),
         "cover_checks": len([o for o in all_obs if o["kind"] == "cover"]),
         "bounded": [{"name": b.name, "bound": b.bound, "cases": b.cases, "distinct": b.distinct, "exhaustive": b.exhaustive,
